@@ -59,7 +59,7 @@ def sched_execute(variant, prefix):
     import diameter.node.peer as pp
     sk.install()
     pts = {}
-    for name in ("receive_cer", "receive_cea", "_check_timers", "close_connection_socket", "remove_peer_connection", "_flag_connection_as_ready",
+    for name in ("receive_cer", "receive_cea", "_check_timers", "close_connection_socket", "remove_peer_connection", "_remove_peer_connection", "_flag_connection_as_ready",
                  "_flag_peer_as_connected", "_assign_peer_connection", "_receive_message"):
         if hasattr(nn.Node, name):
             pts[sk.code_of(nn.Node, name)] = None
